@@ -1,8 +1,690 @@
-// C19 harness (stub: replaced by the real harness).
-use crate::vx::report::Report;
+// C19 (packet level): every BMP message / MRT record produced by
+// rustybgp_packet::bmp::BmpCodec, rustybgp_packet::mrt::MrtCodec and
+// rustybgp_packet::mrt::encode_table_dump is well-formed and carries the
+// intended BGP data.
+//
+// Bounded-exhaustive enumeration.  One case = one record: the harness builds the
+// message value the daemon would hand to the codec (same constructors the daemon
+// uses: PerPeerHeader::new / with_post_policy / with_peer_type, MpHeader::new with
+// is_asn4 = true, TableDumpRecord), encodes it with a FRESH codec, and hands the
+// bytes plus the intent to the shared oracle (c19_oracle.rs): independent
+// structural reader (wire.rs, from the RFCs) + the repository's BGP parser for the
+// embedded PDUs, configured from what the record states.
+//
+// Case descriptors (replayable, `hx c19 --replay <case>`):
+//   bmp:rm:<fam>:<r|u|e>:<n>:<big>:<ap>:<attr>:<nh>:<peer 4|6>:<hdr>
+//        fam = index into mkmsg::families(); n NLRI from mkmsg::nlri_bulk(fam,n,big);
+//        ap = add-path 0|1; attr = s<bytes> (mkmsg::attr_block_of_size) | a<idx>
+//        (mkmsg::attribute_sets); nh = index into mkmsg::nexthops(fam);
+//        hdr = pre|post|out|outpost|loc
+//   bmp:val:<fam>:<nlri idx>:<r|u>:<ap>      one named NLRI value (mkmsg::nlris_named)
+//   bmp:peerup:<remote 4|6>:<local 4|6>:<sent open idx>:<received open idx>
+//   bmp:peerdown:<peer 4|6>:<ln|rn>:<notification idx> | fsm:<code> | ru | dc
+//   bmp:init:<idx>   bmp:term   bmp:obs:<stats|mirror>
+//   mrt:mp:<remote 4|6>:<local 4|6>:<as idx>:<fam>:<r|u|e>:<n>:<big>:<ap>:<attr>:<nh>
+//   mrt:msg:<remote>:<local>:<open|notif|keepalive>:<idx>
+//   mrt:pit:<peer kinds, one char each of 4,6,w(v4 wide AS),x(v6 wide AS)>   ("-" = none)
+//   mrt:rib:<4|6>:<prefix idx>:<entries, ','-separated <nh idx>.<attr>>       ("-" = none)
 
-pub fn run(_replay: Option<&str>) -> Report {
+use crate::mkmsg;
+use crate::vx::enumr;
+use crate::vx::report::{catch, Report, Violation};
+use crate::wire;
+use bytes::BytesMut;
+use rustybgp_packet::bgp::{Family, Message, Nexthop, Nlri, PathNlri};
+use rustybgp_packet::{bmp, mrt};
+use std::collections::BTreeSet;
+use std::net::{IpAddr, Ipv4Addr};
+use std::sync::{Arc, Mutex};
+use tokio_util::codec::Encoder;
+
+mod oracle {
+    include!("c19_oracle.rs");
+}
+use oracle::{DownIntent, Finding, Kind, MpIntent, PeerHdrIntent, PeerIntent, RibEntryIntent, UpdateIntent};
+
+fn v4peer() -> IpAddr {
+    "192.0.2.2".parse().unwrap()
+}
+fn v6peer() -> IpAddr {
+    "2001:db8::2".parse().unwrap()
+}
+fn v4local() -> IpAddr {
+    "192.0.2.1".parse().unwrap()
+}
+fn v6local() -> IpAddr {
+    "2001:db8::1".parse().unwrap()
+}
+fn addr(kind: &str, remote: bool) -> Result<IpAddr, String> {
+    match (kind, remote) {
+        ("4", true) => Ok(v4peer()),
+        ("6", true) => Ok(v6peer()),
+        ("4", false) => Ok(v4local()),
+        ("6", false) => Ok(v6local()),
+        _ => Err(format!("bad address kind {kind}")),
+    }
+}
+
+const PEER_AS: u32 = 65002;
+const PEER_ID: u32 = 0xc000_0202;
+const LOCAL_AS: u32 = 65001;
+const LOCAL_ID: u32 = 0xc000_0201;
+
+fn to_violation(domain: &str, f: Finding, case: &str) -> Violation {
+    let sig = if f.shape.is_empty() { format!("C19/{domain}/{}", f.clause) } else { format!("C19/{domain}/{}/{}", f.clause, f.shape) };
+    Violation { sig, what: f.what, case: case.to_string() }
+}
+
+// ---------------------------------------------------------------------------
+// intents from descriptors
+// ---------------------------------------------------------------------------
+
+fn attr_spec(spec: &str) -> Result<(Vec<rustybgp_packet::bgp::Attribute>, String), String> {
+    if let Some(n) = spec.strip_prefix('s') {
+        let n: usize = n.parse().map_err(|_| format!("bad attr spec {spec}"))?;
+        let (a, got) = mkmsg::attr_block_of_size(n);
+        let class = if got > 4096 { "size>4096" } else if got > 255 { "size<=4096" } else { "size<=255" };
+        Ok((a, class.to_string()))
+    } else if let Some(i) = spec.strip_prefix('a') {
+        let i: usize = i.parse().map_err(|_| format!("bad attr spec {spec}"))?;
+        let (name, set) = mkmsg::attribute_sets().get(i).cloned().ok_or("attr set index")?;
+        Ok((set, name.split('#').next().unwrap_or("").to_string()))
+    } else {
+        Err(format!("bad attr spec {spec}"))
+    }
+}
+
+fn kind_of(s: &str) -> Result<Kind, String> {
+    match s {
+        "r" => Ok(Kind::Reach),
+        "u" => Ok(Kind::Unreach),
+        "e" => Ok(Kind::Eor),
+        _ => Err(format!("bad kind {s}")),
+    }
+}
+
+#[allow(clippy::too_many_arguments)]
+fn update_intent(fam: usize, kind: &str, n: usize, big: bool, ap: bool, attr: &str, nh: usize) -> Result<UpdateIntent, String> {
+    let family = *mkmsg::families().get(fam).ok_or("family index")?;
+    let kind = kind_of(kind)?;
+    let (attrs, attr_class) = attr_spec(attr)?;
+    let nexthop = mkmsg::nexthops(family).get(nh).ok_or("nexthop index")?.nexthop;
+    let entries = if kind == Kind::Eor { vec![] } else { mkmsg::path_entries(&mkmsg::nlri_bulk(family, n, big), ap) };
+    Ok(UpdateIntent { family, kind, entries, nexthop, attrs, addpath: ap, attr_class })
+}
+
+fn hdr_of(peer: &str, hdr: &str) -> Result<(bmp::PerPeerHeader, PeerHdrIntent), String> {
+    let a = addr(peer, true)?;
+    let id = Ipv4Addr::from(PEER_ID);
+    let (h, it) = match hdr {
+        "pre" => (bmp::PerPeerHeader::new(0, PEER_AS, id, 0, a, 7), PeerHdrIntent { peer_type: 0, flags: 0, addr: a, asn: PEER_AS, bgp_id: PEER_ID }),
+        "post" => (
+            bmp::PerPeerHeader::new(bmp::Message::PEER_FLAG_POST_POLICY, PEER_AS, id, 0, a, 7),
+            PeerHdrIntent { peer_type: 0, flags: 0x40, addr: a, asn: PEER_AS, bgp_id: PEER_ID },
+        ),
+        // the snapshot path builds post-policy headers with with_post_policy()
+        "post2" => (bmp::PerPeerHeader::new(0, PEER_AS, id, 0, a, 7).with_post_policy(), PeerHdrIntent { peer_type: 0, flags: 0x40, addr: a, asn: PEER_AS, bgp_id: PEER_ID }),
+        "out" => (
+            bmp::PerPeerHeader::new(bmp::Message::PEER_FLAG_ADJ_RIB_OUT, PEER_AS, id, 0, a, 7),
+            PeerHdrIntent { peer_type: 0, flags: 0x10, addr: a, asn: PEER_AS, bgp_id: PEER_ID },
+        ),
+        "outpost" => (
+            bmp::PerPeerHeader::new(bmp::Message::PEER_FLAG_ADJ_RIB_OUT | bmp::Message::PEER_FLAG_POST_POLICY, PEER_AS, id, 0, a, 7),
+            PeerHdrIntent { peer_type: 0, flags: 0x50, addr: a, asn: PEER_AS, bgp_id: PEER_ID },
+        ),
+        // RFC 9069: Loc-RIB instance peer, address zero, local AS / id (daemon: loc_rib_to_bmp)
+        "loc" => (
+            bmp::PerPeerHeader::new(0, LOCAL_AS, Ipv4Addr::from(LOCAL_ID), 0, IpAddr::V4(Ipv4Addr::UNSPECIFIED), 7).with_peer_type(bmp::Message::PEER_TYPE_LOC_RIB),
+            PeerHdrIntent { peer_type: 3, flags: 0, addr: IpAddr::V4(Ipv4Addr::UNSPECIFIED), asn: LOCAL_AS, bgp_id: LOCAL_ID },
+        ),
+        _ => return Err(format!("bad header kind {hdr}")),
+    };
+    Ok((h, it))
+}
+
+fn bmp_encode(m: &bmp::Message) -> Result<Vec<u8>, String> {
+    let mut b = BytesMut::new();
+    let mut c = bmp::BmpCodec::new();
+    match catch(|| c.encode(m, &mut b)) {
+        Err(p) => Err(format!("panic: {p}")),
+        Ok(Err(e)) => Err(format!("error: {e}")),
+        Ok(Ok(())) => Ok(b.to_vec()),
+    }
+}
+
+fn mrt_encode(m: &mrt::Message) -> Result<Vec<u8>, String> {
+    let mut b = BytesMut::new();
+    let mut c = mrt::MrtCodec::new();
+    match catch(|| c.encode(m, &mut b)) {
+        Err(p) => Err(format!("panic: {p}")),
+        Ok(Err(e)) => Err(format!("error: {e}")),
+        Ok(Ok(())) => Ok(b.to_vec()),
+    }
+}
+
+fn dump_encode(r: &mrt::TableDumpRecord) -> Result<Vec<u8>, String> {
+    let mut b = BytesMut::new();
+    match catch(|| mrt::encode_table_dump(7, r, &mut b)) {
+        Err(p) => Err(format!("panic: {p}")),
+        Ok(Err(e)) => Err(format!("error: {e}")),
+        Ok(Ok(())) => Ok(b.to_vec()),
+    }
+}
+
+struct Outcome {
+    vs: Vec<Violation>,
+    /// the record (for distinct counting); MRT: without the wall-clock timestamp
+    bytes: Vec<u8>,
+    /// observation for records the daemon never emits (not a verdict)
+    obs: Option<String>,
+}
+
+fn done(domain: &str, fs: Vec<Finding>, bytes: Vec<u8>, case: &str) -> Outcome {
+    Outcome { vs: fs.into_iter().map(|f| to_violation(domain, f, case)).collect(), bytes, obs: None }
+}
+
+fn encode_failed(domain: &str, what: &str, e: String, case: &str) -> Outcome {
+    Outcome { vs: vec![Violation { sig: format!("C19/{domain}/encode-fails/{what}"), what: format!("the encoder did not produce a record: {e}"), case: case.to_string() }], bytes: vec![], obs: None }
+}
+
+fn as_pair(i: usize) -> Result<(u32, u32), String> {
+    // (remote AS, local AS): 2-byte values; values that need 4 bytes
+    [(PEER_AS, LOCAL_AS), (4_200_000_000u32, 65536u32)].get(i).copied().ok_or("as pair index".to_string())
+}
+
+fn pit_peers(spec: &str) -> Result<Vec<(mrt::PeerEntry, PeerIntent)>, String> {
+    let mut out = Vec::new();
+    if spec == "-" {
+        return Ok(out);
+    }
+    for (i, ch) in spec.chars().enumerate() {
+        let (a, asn): (IpAddr, u32) = match ch {
+            '4' => (format!("192.0.2.{}", 10 + i).parse().unwrap(), 65010 + i as u32),
+            '6' => (format!("2001:db8::{:x}", 10 + i).parse().unwrap(), 65010 + i as u32),
+            'w' => (format!("192.0.2.{}", 10 + i).parse().unwrap(), 4_200_000_000 + i as u32),
+            'x' => (format!("2001:db8::{:x}", 10 + i).parse().unwrap(), 4_200_000_000 + i as u32),
+            _ => return Err(format!("bad peer kind {ch}")),
+        };
+        let id = 0x0a00_0001u32 + i as u32;
+        out.push((mrt::PeerEntry { bgp_id: Ipv4Addr::from(id), addr: a, asn }, PeerIntent { bgp_id: id, addr: a, asn }));
+    }
+    Ok(out)
+}
+
+/// next-hop menu of a TABLE_DUMP_V2 entry
+fn rib_nh(v6: bool, i: usize) -> Result<Option<Nexthop>, String> {
+    let m: Vec<Option<Nexthop>> = if v6 {
+        vec![Some(mkmsg::nh_v6()), Some(mkmsg::nh_v6_ll()), Some(mkmsg::nh_v4_mapped())]
+    } else {
+        // IPv4 prefix: IPv4 next hop; RFC 8950 sessions deliver IPv6 next hops for IPv4 prefixes
+        vec![Some(mkmsg::nh_v4()), Some(mkmsg::nh_v6()), Some(mkmsg::nh_v6_ll())]
+    };
+    m.get(i).copied().ok_or("rib nexthop index".to_string())
+}
+const RIB_ATTRS: [&str; 4] = ["s13", "s300", "a0", "aT"]; // aT = "typical" set (resolved below)
+
+fn rib_attr(spec: &str) -> Result<(Vec<rustybgp_packet::bgp::Attribute>, String), String> {
+    if spec == "aT" {
+        let sets = mkmsg::attribute_sets();
+        let (n, s) = sets.iter().find(|(n, _)| n == "all-kinds").cloned().ok_or("all-kinds set")?;
+        return Ok((s, n));
+    }
+    attr_spec(spec)
+}
+
+fn eval_case(case: &str) -> Result<Outcome, String> {
+    let p: Vec<&str> = case.split(':').collect();
+    let num = |i: usize| -> Result<usize, String> { p.get(i).and_then(|s| s.parse().ok()).ok_or(format!("bad case {case}")) };
+    let s = |i: usize| -> Result<&str, String> { p.get(i).copied().ok_or(format!("bad case {case}")) };
+    match (s(0)?, s(1)?) {
+        ("bmp", "rm") => {
+            let it = update_intent(num(2)?, s(3)?, num(4)?, num(5)? == 1, num(6)? == 1, s(7)?, num(8)?)?;
+            let (h, hi) = hdr_of(s(9)?, s(10)?)?;
+            let m = bmp::Message::RouteMonitoring { header: h, update: it.to_message(), addpath: it.addpath };
+            match bmp_encode(&m) {
+                Err(e) => Ok(encode_failed("bmp", &format!("route-monitoring:{}", it.shape()), e, case)),
+                Ok(b) => Ok(done("bmp", oracle::check_route_monitoring(&b, &hi, &it), b, case)),
+            }
+        }
+        ("bmp", "val") => {
+            let family = *mkmsg::families().get(num(2)?).ok_or("family index")?;
+            let (_, n) = mkmsg::nlris_named(family).get(num(3)?).cloned().ok_or("nlri index")?;
+            let ap = num(5)? == 1;
+            let it = UpdateIntent {
+                family,
+                kind: kind_of(s(4)?)?,
+                entries: mkmsg::path_entries(&[n], ap),
+                nexthop: mkmsg::default_nexthop(family),
+                attrs: mkmsg::base_attrs(),
+                addpath: ap,
+                attr_class: "base".into(),
+            };
+            let (h, hi) = hdr_of("4", "pre")?;
+            let m = bmp::Message::RouteMonitoring { header: h, update: it.to_message(), addpath: ap };
+            match bmp_encode(&m) {
+                Err(e) => Ok(encode_failed("bmp", &format!("route-monitoring:{}", it.shape()), e, case)),
+                Ok(b) => Ok(done("bmp", oracle::check_route_monitoring(&b, &hi, &it), b, case)),
+            }
+        }
+        ("bmp", "peerup") => {
+            let (ra, la) = (addr(s(2)?, true)?, addr(s(3)?, false)?);
+            let opens = mkmsg::opens();
+            let (so, ro) = (opens.get(num(4)?).ok_or("open index")?.1.clone(), opens.get(num(5)?).ok_or("open index")?.1.clone());
+            let (Message::Open(sent), Message::Open(recv)) = (&so, &ro) else { return Err("opens".into()) };
+            let h = bmp::PerPeerHeader::new(0, recv.as_number, Ipv4Addr::from(recv.router_id), 0, ra, 7);
+            let hi = PeerHdrIntent { peer_type: 0, flags: 0, addr: ra, asn: recv.as_number, bgp_id: recv.router_id };
+            let m = bmp::Message::PeerUp { header: h, local_addr: la, local_port: 179, remote_port: 40000, local_open: so.clone(), remote_open: ro.clone() };
+            match bmp_encode(&m) {
+                Err(e) => Ok(encode_failed("bmp", "peer-up", e, case)),
+                Ok(b) => Ok(done("bmp", oracle::check_peer_up(&b, &hi, la, 179, 40000, sent, recv), b, case)),
+            }
+        }
+        ("bmp", "peerdown") => {
+            let ra = addr(s(2)?, true)?;
+            let h = bmp::PerPeerHeader::new(0, PEER_AS, Ipv4Addr::from(PEER_ID), 0, ra, 7);
+            let hi = PeerHdrIntent { peer_type: 0, flags: 0, addr: ra, asn: PEER_AS, bgp_id: PEER_ID };
+            let notif = |i: usize| -> Result<(Message, rustybgp_packet::bgp::Notification), String> {
+                let m = mkmsg::notifications().get(i).ok_or("notification index")?.1.clone();
+                let Message::Notification(n) = m.clone() else { return Err("notification".into()) };
+                Ok((m, n))
+            };
+            let (reason, it) = match s(3)? {
+                "ln" => {
+                    let (m, n) = notif(num(4)?)?;
+                    (bmp::PeerDownReason::LocalNotification(m), DownIntent::LocalNotification(n))
+                }
+                "rn" => {
+                    let (m, n) = notif(num(4)?)?;
+                    (bmp::PeerDownReason::RemoteNotification(m), DownIntent::RemoteNotification(n))
+                }
+                "fsm" => (bmp::PeerDownReason::LocalFsm(num(4)? as u16), DownIntent::LocalFsm(num(4)? as u16)),
+                "ru" => (bmp::PeerDownReason::RemoteUnexpected, DownIntent::RemoteUnexpected),
+                "dc" => (bmp::PeerDownReason::Deconfigured, DownIntent::Deconfigured),
+                x => return Err(format!("bad reason {x}")),
+            };
+            let m = bmp::Message::PeerDown { header: h, reason };
+            match bmp_encode(&m) {
+                Err(e) => Ok(encode_failed("bmp", "peer-down", e, case)),
+                Ok(b) => Ok(done("bmp", oracle::check_peer_down(&b, &hi, &it), b, case)),
+            }
+        }
+        ("bmp", "init") => {
+            let tlvs = init_lists().get(num(2)?).cloned().ok_or("init index")?;
+            match bmp_encode(&bmp::Message::Initiation(tlvs.clone())) {
+                Err(e) => Ok(encode_failed("bmp", "initiation", e, case)),
+                Ok(b) => Ok(done("bmp", oracle::check_initiation(&b, &tlvs), b, case)),
+            }
+        }
+        ("bmp", "term") => match bmp_encode(&bmp::Message::Termination) {
+            Err(e) => Ok(encode_failed("bmp", "termination", e, case)),
+            Ok(b) => {
+                let fs = match oracle::bmp_read(&b) {
+                    Err(f) => vec![f],
+                    Ok(m) if !matches!(m.body, wire::BmpBody::Termination { .. }) => vec![Finding { clause: "wrong-message-type".into(), shape: "termination".into(), what: "Termination intended".into() }],
+                    Ok(_) => vec![],
+                };
+                Ok(done("bmp", fs, b, case))
+            }
+        },
+        ("bmp", "obs") => {
+            // message kinds the daemon never emits (no payload in the API): observation only
+            let m = if s(2)? == "stats" { bmp::Message::StatsReports } else { bmp::Message::RouteMirroring };
+            let b = bmp_encode(&m)?;
+            let o = match oracle::bmp_read(&b) {
+                Ok(_) => format!("obs: BmpCodec output for {} ({} bytes) is readable", s(2)?, b.len()),
+                Err(f) => format!("obs: BmpCodec output for the payload-less {} variant is not a valid message ({}: {}); the daemon never emits it", s(2)?, f.clause, f.what),
+            };
+            Ok(Outcome { vs: vec![], bytes: b, obs: Some(o) })
+        }
+        ("mrt", "mp") => {
+            let (ra, la) = (addr(s(2)?, true)?, addr(s(3)?, false)?);
+            let (ras, las) = as_pair(num(4)?)?;
+            let it = update_intent(num(5)?, s(6)?, num(7)?, num(8)? == 1, num(9)? == 1, s(10)?, num(11)?)?;
+            // the daemon's adj_rib_in_to_mrt: MpHeader::new(remote_asn, local_asn, 0, remote_addr, local_addr, true)
+            let h = mrt::MpHeader::new(ras, las, 0, ra, la, true);
+            let m = mrt::Message::Mp { header: h, body: it.to_message(), addpath: it.addpath };
+            let mp = MpIntent { remote_as: ras, local_as: las, remote_addr: ra, local_addr: la };
+            match mrt_encode(&m) {
+                Err(e) => Ok(encode_failed("mrt", &format!("bgp4mp:{}", it.shape()), e, case)),
+                Ok(b) => Ok(done("mrt", oracle::check_bgp4mp(&b, &mp, Some(&it), None), b[4.min(b.len())..].to_vec(), case)),
+            }
+        }
+        ("mrt", "msg") => {
+            let (ra, la) = (addr(s(2)?, true)?, addr(s(3)?, false)?);
+            let body = match s(4)? {
+                "open" => mkmsg::opens().get(num(5)?).ok_or("open index")?.1.clone(),
+                "notif" => mkmsg::notifications().get(num(5)?).ok_or("notification index")?.1.clone(),
+                "keepalive" => mkmsg::keepalive(),
+                x => return Err(format!("bad message kind {x}")),
+            };
+            let h = mrt::MpHeader::new(PEER_AS, LOCAL_AS, 0, ra, la, true);
+            let m = mrt::Message::Mp { header: h, body: body.clone(), addpath: false };
+            let mp = MpIntent { remote_as: PEER_AS, local_as: LOCAL_AS, remote_addr: ra, local_addr: la };
+            match mrt_encode(&m) {
+                Err(e) => Ok(encode_failed("mrt", "bgp4mp:other", e, case)),
+                Ok(b) => Ok(done("mrt", oracle::check_bgp4mp(&b, &mp, None, Some(&body)), b[4.min(b.len())..].to_vec(), case)),
+            }
+        }
+        ("mrt", "pit") => {
+            let peers = pit_peers(s(2)?)?;
+            let (ents, ints): (Vec<_>, Vec<_>) = peers.into_iter().unzip();
+            let r = mrt::TableDumpRecord::PeerIndexTable { router_id: Ipv4Addr::from(LOCAL_ID), peers: ents };
+            match dump_encode(&r) {
+                Err(e) => Ok(encode_failed("mrt", "peer-index-table", e, case)),
+                Ok(b) => Ok(done("mrt", oracle::check_peer_index_table(&b, LOCAL_ID, &ints).0, b, case)),
+            }
+        }
+        ("mrt", "rib") => {
+            let v6 = s(2)? == "6";
+            let family = if v6 { Family::IPV6 } else { Family::IPV4 };
+            let (_, prefix) = mkmsg::nlris_named(family).get(num(3)?).cloned().ok_or("prefix index")?;
+            let mut ents = Vec::new();
+            let mut ints = Vec::new();
+            if s(4)? != "-" {
+                for (i, e) in s(4)?.split(',').enumerate() {
+                    let (nhi, a) = e.split_once('.').ok_or("entry spec")?;
+                    let nh = rib_nh(v6, nhi.parse().map_err(|_| "entry nh")?)?;
+                    let (attrs, class) = rib_attr(a)?;
+                    ents.push(mrt::RibEntry { peer_index: i as u16, originated: 7, nexthop: nh, attrs: Arc::new(attrs.clone()) });
+                    ints.push(RibEntryIntent { peer_index: i as u16, nexthop: nh, attrs, attr_class: class });
+                }
+            }
+            let r = if v6 {
+                mrt::TableDumpRecord::RibIpv6Unicast { seq: 5, prefix: prefix.clone(), entries: ents }
+            } else {
+                mrt::TableDumpRecord::RibIpv4Unicast { seq: 5, prefix: prefix.clone(), entries: ents }
+            };
+            match dump_encode(&r) {
+                Err(e) => Ok(encode_failed("mrt", "rib", e, case)),
+                Ok(b) => Ok(done("mrt", oracle::check_rib(&b, 5, &prefix, &ints, Some(3)), b, case)),
+            }
+        }
+        _ => Err(format!("unknown case {case}")),
+    }
+}
+
+fn init_lists() -> Vec<Vec<(u16, Vec<u8>)>> {
+    vec![
+        vec![],
+        vec![(bmp::Message::INFO_TYPE_SYSNAME, b"rtr1".to_vec())],
+        vec![(bmp::Message::INFO_TYPE_SYSDESCR, b"RustyBGP v0.0.0-abcdef".to_vec()), (bmp::Message::INFO_TYPE_SYSNAME, b"rtr1".to_vec())],
+        vec![(0, b"free-form string".to_vec()), (bmp::Message::INFO_TYPE_SYSNAME, vec![])],
+        vec![(bmp::Message::INFO_TYPE_SYSDESCR, vec![b'x'; 255]), (bmp::Message::INFO_TYPE_SYSNAME, vec![b'y'; 256])],
+        vec![(bmp::Message::INFO_TYPE_SYSDESCR, vec![b'x'; 5000])],
+    ]
+}
+
+// ---------------------------------------------------------------------------
+// enumeration
+// ---------------------------------------------------------------------------
+
+struct Group {
+    name: &'static str,
+    cases: Vec<String>,
+}
+
+fn groups(thorough: bool) -> Vec<Group> {
+    let fams = mkmsg::families();
+    let ns: Vec<usize> = if thorough { vec![1, 2, 3, 50, 200, 400, 800, 1200, 3000] } else { vec![1, 3, 200, 1200] };
+    let attrs: Vec<&str> = if thorough {
+        vec!["s13", "s16", "s300", "s2000", "s4000", "s4066", "s4097", "s5000", "s9000", "s30000", "s65000"]
+    } else {
+        vec!["s13", "s300", "s4066", "s4097", "s9000"]
+    };
+    let hdrs: Vec<(&str, &str)> = if thorough {
+        vec![("4", "pre"), ("6", "pre"), ("4", "post"), ("6", "post"), ("4", "post2"), ("6", "post2"), ("4", "out"), ("6", "out"), ("4", "outpost"), ("6", "outpost"), ("4", "loc")]
+    } else {
+        vec![("4", "pre"), ("6", "post"), ("6", "post2"), ("4", "out"), ("6", "outpost"), ("4", "loc")]
+    };
+    // bodies: (kind, n, big, ap, attr, nh)
+    let bodies = |fi: usize, f: Family| -> Vec<String> {
+        let mut v = Vec::new();
+        let nnh = mkmsg::nexthops(f).len();
+        for ap in 0..2 {
+            for &n in &ns {
+                for big in 0..2 {
+                    for a in &attrs {
+                        for nh in 0..nnh {
+                            // attribute size and next hop only matter together with few NLRI:
+                            // cross everything for n <= 3, otherwise the base block with every next hop
+                            // and every block with the first next hop
+                            if n > 3 && *a != "s13" && nh != 0 {
+                                continue;
+                            }
+                            v.push(format!("{fi}:r:{n}:{big}:{ap}:{a}:{nh}"));
+                        }
+                    }
+                    v.push(format!("{fi}:u:{n}:{big}:{ap}:s13:0"));
+                }
+            }
+            v.push(format!("{fi}:e:0:0:{ap}:s13:0"));
+        }
+        v
+    };
+    let mut rm = Vec::new();
+    let mut mp = Vec::new();
+    for (fi, f) in fams.iter().enumerate() {
+        for b in bodies(fi, *f) {
+            for (peer, hdr) in &hdrs {
+                rm.push(format!("bmp:rm:{b}:{peer}:{hdr}"));
+            }
+            let parts: Vec<&str> = b.split(':').collect();
+            let small = parts[2].parse::<usize>().unwrap_or(0) <= 3 && parts[5] == "s13";
+            for (ra, la) in [("4", "4"), ("6", "6"), ("4", "6"), ("6", "4")] {
+                // mixed address families and the wide-AS pair: with the small bodies only
+                // (they do not interact with the embedded UPDATE)
+                if (ra != la) && !small {
+                    continue;
+                }
+                for asp in 0..2 {
+                    if asp == 1 && !small {
+                        continue;
+                    }
+                    mp.push(format!("mrt:mp:{ra}:{la}:{asp}:{b}"));
+                }
+            }
+        }
+    }
+    // attribute-size boundary of the embedded 4096-byte codec: one NLRI, every size
+    let mut boundary = Vec::new();
+    for (fi, _) in fams.iter().enumerate() {
+        for size in 3980..=4100usize {
+            for ap in 0..2 {
+                boundary.push(format!("bmp:rm:{fi}:r:1:0:{ap}:s{size}:0:4:pre"));
+                if thorough {
+                    boundary.push(format!("mrt:mp:4:4:0:{fi}:r:1:0:{ap}:s{size}:0"));
+                }
+            }
+        }
+    }
+    // named values and attribute kinds
+    let mut vals = Vec::new();
+    for (fi, f) in fams.iter().enumerate() {
+        for i in 0..mkmsg::nlris_named(*f).len() {
+            for k in ["r", "u"] {
+                for ap in 0..2 {
+                    vals.push(format!("bmp:val:{fi}:{i}:{k}:{ap}"));
+                }
+            }
+        }
+    }
+    let mut attrsets = Vec::new();
+    let nsets = mkmsg::attribute_sets().len();
+    for fi in [0usize, 1, 7, 8] {
+        for i in 0..nsets {
+            attrsets.push(format!("bmp:rm:{fi}:r:1:1:0:a{i}:0:4:pre"));
+            attrsets.push(format!("mrt:mp:4:4:0:{fi}:r:1:1:0:a{i}:0"));
+        }
+    }
+    // Peer Up / Peer Down / Initiation / Termination
+    let nopen = mkmsg::opens().len();
+    let mut peerup = Vec::new();
+    for (ra, la) in [("4", "4"), ("6", "6"), ("4", "6"), ("6", "4")] {
+        for s in 0..nopen {
+            for r in 0..nopen {
+                if !thorough && ra != la && s != r {
+                    continue;
+                }
+                peerup.push(format!("bmp:peerup:{ra}:{la}:{s}:{r}"));
+            }
+        }
+    }
+    let mut peerdown = Vec::new();
+    for ra in ["4", "6"] {
+        for i in 0..mkmsg::notifications().len() {
+            peerdown.push(format!("bmp:peerdown:{ra}:ln:{i}"));
+            peerdown.push(format!("bmp:peerdown:{ra}:rn:{i}"));
+        }
+        for c in [0, 1, 2, 6, 28, 65535] {
+            peerdown.push(format!("bmp:peerdown:{ra}:fsm:{c}"));
+        }
+        peerdown.push(format!("bmp:peerdown:{ra}:ru"));
+        peerdown.push(format!("bmp:peerdown:{ra}:dc"));
+    }
+    let mut misc: Vec<String> = (0..init_lists().len()).map(|i| format!("bmp:init:{i}")).collect();
+    misc.push("bmp:term".into());
+    misc.push("bmp:obs:stats".into());
+    misc.push("bmp:obs:mirror".into());
+    // BGP4MP with other BGP messages
+    let mut mrtmsg = Vec::new();
+    for (ra, la) in [("4", "4"), ("6", "6"), ("4", "6"), ("6", "4")] {
+        for i in 0..nopen {
+            mrtmsg.push(format!("mrt:msg:{ra}:{la}:open:{i}"));
+        }
+        for i in 0..mkmsg::notifications().len() {
+            mrtmsg.push(format!("mrt:msg:{ra}:{la}:notif:{i}"));
+        }
+        mrtmsg.push(format!("mrt:msg:{ra}:{la}:keepalive:0"));
+    }
+    // PEER_INDEX_TABLE: 0..3 peers, each v4 / v6 x 2-byte-range / 4-byte-range AS
+    let mut pit = vec!["mrt:pit:-".to_string()];
+    let kinds = ['4', '6', 'w', 'x'];
+    for n in 1..=3usize {
+        for i in 0..kinds.len().pow(n as u32) {
+            let d = enumr::digits(i as u64, &vec![kinds.len(); n]);
+            pit.push(format!("mrt:pit:{}", d.iter().map(|x| kinds[*x]).collect::<String>()));
+        }
+    }
+    // RIB records: 0..3 entries, each (next-hop kind x attribute block)
+    let mut rib = Vec::new();
+    for v in ["4", "6"] {
+        let family = if v == "6" { Family::IPV6 } else { Family::IPV4 };
+        let menu: Vec<String> = (0..3).flat_map(|nh| RIB_ATTRS.iter().map(move |a| format!("{nh}.{a}"))).collect();
+        for pi in 0..mkmsg::nlris_named(family).len() {
+            rib.push(format!("mrt:rib:{v}:{pi}:-"));
+            for n in 1..=3usize {
+                if !thorough && n == 3 && pi > 1 {
+                    continue;
+                }
+                for i in 0..menu.len().pow(n as u32) {
+                    let d = enumr::digits(i as u64, &vec![menu.len(); n]);
+                    rib.push(format!("mrt:rib:{v}:{pi}:{}", d.iter().map(|x| menu[*x].clone()).collect::<Vec<_>>().join(",")));
+                }
+            }
+        }
+    }
+    vec![
+        Group { name: "bmp route-monitoring (family x reach/unreach/eor x NLRI count x size x add-path x attribute block x next hop x peer/header kind)", cases: rm },
+        Group { name: "bmp/mrt attribute-size boundary 3980..4100, one NLRI", cases: boundary },
+        Group { name: "bmp named NLRI values (incl. label stacks)", cases: vals },
+        Group { name: "bmp/mrt attribute kinds (mkmsg::attribute_sets)", cases: attrsets },
+        Group { name: "bmp peer-up (address family combinations x sent OPEN x received OPEN)", cases: peerup },
+        Group { name: "bmp peer-down (reasons x NOTIFICATIONs)", cases: peerdown },
+        Group { name: "bmp initiation / termination / payload-less variants", cases: misc },
+        Group { name: "mrt bgp4mp UPDATE (address combinations x AS width x bodies)", cases: mp },
+        Group { name: "mrt bgp4mp other messages", cases: mrtmsg },
+        Group { name: "mrt peer-index-table (0..3 peers)", cases: pit },
+        Group { name: "mrt rib records (0..3 entries)", cases: rib },
+    ]
+}
+
+fn fnv(b: &[u8]) -> u64 {
+    let mut h: u64 = 0xcbf29ce484222325;
+    for x in b {
+        h ^= *x as u64;
+        h = h.wrapping_mul(0x100000001b3);
+    }
+    h
+}
+
+pub fn run(replay: Option<&str>) -> Report {
     let mut rep = Report::new("C19", "hx-c19");
-    rep.machinery_error = Some("harness not built yet".into());
+    rep.rule = "one case = one record built the way the daemon builds it and encoded by a fresh BmpCodec / MrtCodec / encode_table_dump; \
+        the bytes are read by the independent RFC reader (wire.rs) and the embedded PDUs by the repository's BGP parser configured from what the record states, \
+        then compared with the intent (length, V flag / AFI vs addresses, one PDU per record, NLRI multiset, next hop, attributes, OPENs, peer-index / entry counts); \
+        distinct = distinct record byte strings (MRT without the wall-clock timestamp)"
+        .to_string();
+    if let Some(case) = replay {
+        match eval_case(case) {
+            Ok(o) => {
+                for v in &o.vs {
+                    eprintln!("replay: {} :: {}", v.sig, v.what);
+                }
+                if let Some(ob) = &o.obs {
+                    eprintln!("replay: {ob}");
+                }
+                if o.vs.is_empty() {
+                    eprintln!("replay: case {case}: record of {} bytes satisfies every clause", o.bytes.len());
+                }
+                rep.evaluations = 1;
+                rep.violations_from(o.vs);
+            }
+            Err(e) => rep.machinery_error = Some(e),
+        }
+        return rep;
+    }
+    let thorough = rep.thorough();
+    let distinct: Mutex<BTreeSet<u64>> = Mutex::new(BTreeSet::new());
+    let obs: Mutex<BTreeSet<String>> = Mutex::new(BTreeSet::new());
+    let mach: Mutex<Option<String>> = Mutex::new(None);
+    for g in groups(thorough) {
+        let cases = &g.cases;
+        let mut sub = Report::new("C19", "hx-c19");
+        enumr::par_range(cases.len() as u64, &mut sub, |i, local| {
+            let case = &cases[i as usize];
+            match eval_case(case) {
+                Err(e) => {
+                    let mut m = mach.lock().unwrap();
+                    if m.is_none() {
+                        *m = Some(format!("{case}: {e}"));
+                    }
+                }
+                Ok(o) => {
+                    local.evaluations += 1;
+                    if o.vs.is_empty() {
+                        local.add("ok", 1);
+                    }
+                    if !o.bytes.is_empty() {
+                        let h = fnv(&o.bytes);
+                        let mut d = distinct.lock().unwrap();
+                        d.insert(h);
+                    }
+                    if let Some(ob) = o.obs {
+                        obs.lock().unwrap().insert(ob);
+                    }
+                    local.sample(i, || case.clone());
+                    local.violations_from(o.vs);
+                }
+            }
+        });
+        let ok = sub.extra.get("ok").copied().unwrap_or(0);
+        rep.notes.push(format!("{}: {} cases, {} satisfy every clause, {} violation signature(s)", g.name, sub.evaluations, ok, sub.violations.len()));
+        sub.extra.clear();
+        sub.notes.clear();
+        rep.merge(sub);
+    }
+    for o in obs.into_inner().unwrap() {
+        rep.notes.push(o);
+    }
+    if let Some(m) = mach.into_inner().unwrap() {
+        rep.machinery_error = Some(m);
+    }
+    rep.distinct_nontrivial = distinct.into_inner().unwrap().len() as u64;
+    rep.notes.push("assume: MpHeader is always built with is_asn4 = true and the add-path flag of BmpCodec / MrtCodec equals the negotiated add-path receive state of the monitored session (what the daemon passes)".into());
+    rep.notes.push("assume: OPENs whose capabilities need more than 255 bytes of optional parameters (RFC 9072) are outside the enumerated OPEN space: the code can neither send nor receive them".into());
+    rep.exhaustive = true;
     rep
 }
+
+#[allow(dead_code)]
+fn unused(_: Nlri, _: PathNlri) {}
